@@ -141,14 +141,17 @@ pub fn histories(sink: &mut Sink, rng: &mut Rng, thorough: bool, work: &Path) {
       continue;
     }
     // ---- further commands
-    let n_cmd = if fill { 4 } else { 3 + rng.below(8) as usize };
+    let n_cmd = if fill { 4 } else { 3 + rng.below(10) as usize };
+    // a FOCUS identifier per history: most commands hit it, so that sequences such as
+    // add / remove / re-add / change status (without a purge in between) are frequent
+    let focus = 1 + rng.below(8);
     for c in 0..n_cmd {
       let before = fs::read(&file).unwrap_or_default();
       let kind = rng.below(10);
       let ok;
       if kind < 4 {
         // append (valid or deprecated; ids already present / removed / new)
-        let id = if fill && rng.chance(1, 2) { 100 + rng.below(127) } else { 1 + rng.below(8) };
+        let id = if fill && rng.chance(1, 2) { 100 + rng.below(127) } else if rng.chance(3, 5) { focus } else { 1 + rng.below(8) };
         let e = random_entry(rng, id);
         let p = dir.join(format!("a{}_{}.fits", c, id));
         e.write_fits(&p, rng.chance(1, 4));
@@ -168,7 +171,7 @@ pub fn histories(sink: &mut Sink, rng: &mut Rng, thorough: bool, work: &Path) {
       } else if kind < 8 {
         let st = 1 + rng.below(3) as u8;
         let n_ids = 1 + rng.below(2);
-        let ids: Vec<u64> = (0..n_ids).map(|_| if fill { 100 + rng.below(127) } else { 1 + rng.below(9) }).collect();
+        let ids: Vec<u64> = (0..n_ids).map(|_| if fill { 100 + rng.below(127) } else if rng.chance(3, 5) { focus } else { 1 + rng.below(9) }).collect();
         let idtxt = ids.iter().map(|x| x.to_string()).collect::<Vec<_>>().join(",");
         let r = run("mocset", &["chgstatus", file.to_str().unwrap(), status_name(st), &idtxt], None, &[]);
         ok = r.ok;
